@@ -228,6 +228,11 @@ def nat_roundtrip(seed, count):
                 else:
                     fill = ""
                 col = [(_rand_str(rng, delim, missing) if rng.random() < 0.8 else fill) for _ in range(nrows)]
+                # cells that look like structure of the file format (header delimiter, comment, YAML, quotes)
+                special = ["---", "--- ", "#", "# x", "- a", "a: b", "'", '"', "---x", "schema:", "...", "~", "null"]
+                col = [(str(rng.choice(special)) if rng.random() < 0.04 else c) for c in col]
+                col = [c.strip() for c in col]
+                col = [c if (c != missing and delim not in c or c == fill) else fill for c in col]
                 col = [c if c != missing else fill for c in col]
             elif t == "integer":
                 fill = str(rng.choice(["0", "-1", "999999"]))
@@ -316,7 +321,7 @@ def nat_roundtrip(seed, count):
     return dict(evaluations=ev, failures=fails[:6])
 
 
-def nat_roundtrip_case(seed, it, count):
+def nat_roundtrip_case(seed, it, count, **_):
     r = nat_roundtrip(seed, count)
     hit = [f for f in r["failures"] if f["case"] == f"{seed}.{it}"]
     return dict(ok=not hit, failures=hit)
